@@ -39,7 +39,8 @@ MkInput(ptr, recv, n, bad, ret, addr, second, single, ek, eaddr) ==
                                   \o <<Field("x", "pub", <<>>, TCPtr(TNm("u8")), None, FALSE)>>)
               EXCEPT !.singleton = IF single = "type" THEN 65536 ELSE None]
       E == [EnumDef("E", "pub", TNm("u32"), <<Variant("A", NumNone, FALSE), Variant("B", NumNone, FALSE)>>)
-              EXCEPT !.singleton = IF single = "enum" THEN 131072 ELSE None, !.copyable = TRUE]
+              (* "enumnc": the singleton enum is not declared copyable *)
+              EXCEPT !.singleton = IF single \in {"enum", "enumnc"} THEN 131072 ELSE None, !.copyable = single # "enumnc"]
       f1 == F("f", recv, n, bad, ret, addr)
       f2 == CASE second = "distinct"  -> <<F("h", "mut", 1, 0, "none", 393216)>>
               [] second = "dup"       -> <<F("f", "mut", 1, 0, "none", 393216)>>
